@@ -810,6 +810,8 @@ def replace_assignments(stm: AST) -> AST:
             and lit.atom.ast_type == ASTType.Comparison
             and lit.atom.term.ast_type == ASTType.Variable
             and not has_interval(lit.atom.guards[0].term)
+            # every `_` is another variable: neither replace all of them nor copy one
+            and not any(var.name == "_" for var in collect_ast(lit.atom, "Variable"))
         ):
             if (lit.sign == Sign.NoSign and lit.atom.guards[0].comparison == ComparisonOperator.Equal) or (
                 lit.sign == Sign.Negation and lit.atom.guards[0].comparison == ComparisonOperator.NotEqual
